@@ -24,6 +24,23 @@ def dispatchC08 : List Str → Option (List Str)
         let sp (x : Str) : List Str := if x.isEmpty then [] else splitOn ',' x []
         some ("ok".toList :: resolve1 (sp vs) (sp ts) (sp ps) (chains.map (fun c => splitOn '%' c [])))
       | _ => some ["bad-request".toList]
+    else if cmd == "c08.scope".toList then
+      -- c08.scope <args,> <ret|-> <retTyped 0/1> <hprocs,> <htypes,> <hvars,> <n> stmt*n chain*
+      --   stmt = T|attr;attr|name;name   or   A|keyword|name;name
+      match args with
+      | as :: ret :: rt :: hp :: ht :: hv :: n :: rest =>
+        let sp (c : Char) (x : Str) : List Str := if x.isEmpty then [] else splitOn c x []
+        let k := natOf n
+        let stmts : List Scope.SpecStmt := (rest.take k).filterMap (fun f =>
+          match splitOn '|' f [] with
+          | [t, a, b] => if t == ['T'] then some (.tdecl (sp ';' a) (sp ';' b)) else some (.astmt a (sp ';' b))
+          | _ => none)
+        let u : Scope.Unit := { stmts := stmts, args := sp ',' as,
+                                ret := if ret == ['-'] then none else some ret, retTyped := rt == ['1'] }
+        let h : Scope.Host := { procs := sp ',' hp, types := sp ',' ht, vars := sp ',' hv }
+        let chains := (rest.drop k).map (fun c => splitOn '%' c [])
+        some ("ok".toList :: joinSep ',' (scopeNames u) :: keptCalls h u chains)
+      | _ => some ["bad-request".toList]
     else if cmd == "c08.strip".toList then
       match args with
       | [d, s] => some ("ok".toList :: stripParen s (natOf d))
@@ -56,6 +73,7 @@ def dispatchC08 : List Str → Option (List Str)
         else if n == "VARIABLE_RE" then some ["ok".toList, boolStr (variableRe s)]
         else if n == "ATTRIB_RE" then some ["ok".toList, boolStr (attribRe s)]
         else if n == "USE_RE" then some ["ok".toList, boolStr (useRe s)]
+        else if n == "COMMON_RE" then some ["ok".toList, boolStr (commonRe s)]
         else if n == "ASSOCIATE_RE" then
           some (match associateRe s with | some g => ["ok".toList, ['1'], g] | none => ["ok".toList, ['0']])
         else if n == "END_RE" then
